@@ -17,6 +17,7 @@ mod model;
 mod op;
 mod rng;
 mod scen;
+mod scen_bits;
 mod scen_bytes;
 mod spec;
 mod typist;
@@ -59,6 +60,8 @@ fn scenario(id: &str) -> Option<Box<dyn Scenario>> {
         "C01" => Box::new(Bytes { prop: BProp::C01 }),
         "C02" => Box::new(Bytes { prop: BProp::C02 }),
         "C07" => Box::new(Bytes { prop: BProp::C07 }),
+        "C05" => Box::new(scen_bits::Bits { prop: scen_bits::WProp::C05 }),
+        "C06" => Box::new(scen_bits::Bits { prop: scen_bits::WProp::C06 }),
         _ => return None,
     })
 }
@@ -328,7 +331,7 @@ fn cmd_check(id: &str, tier: Tier) -> i32 {
         println!("  {}", minv.detail);
         // fresh-process replay must reproduce exactly
         let exe = std::env::current_exe().unwrap_or_else(|_| "pcsim".into());
-        let st = std::process::Command::new(exe).arg("replay").arg(&path).env("PCSIM_QUIET", "1").status();
+        let st = std::process::Command::new(exe).arg("replay").arg(&path).env("PCSIM_QUIET", "1").stdout(std::process::Stdio::null()).status();
         let reproduced = matches!(st.map(|s| s.code()), Ok(Some(1)));
         let wall = t0.elapsed().as_secs_f64();
         extra.push(("violation".into(), J::s(&format!("run {} oracle {}: {}", f.run, minv.oracle, minv.detail))));
